@@ -317,7 +317,7 @@ func (g *ctxGen) token(tok string) {
 		// a well-formed proposal declaring an enormous compressed size; the block can still be closed correctly
 		g.rawProp("FC EM HUGECS" + fmt.Sprint(rng.Intn(1000000)) + " 100 " + []string{"268435456", "4611686018427387904", "2147483647"}[rng.Intn(3)] + " 0")
 	case "PropNegCsize":
-		g.rawProp("FC EM NEGCS" + fmt.Sprint(rng.Intn(1000000)) + " 100 -1 0")
+		g.rawProp("FC EM NEGCS" + fmt.Sprint(rng.Intn(1000000)) + " 100 " + []string{"-1", "-150", "-99", "-100", "-199", "-200", "-2147483648", "-0"}[variantOf("PropNegCsize", 8)] + " 0")
 	case "FsOffsetMid":
 		// an offset between the compressed and the uncompressed size of the station's first outbound message
 		cs, sz := libOutSizes()
@@ -457,6 +457,14 @@ func (g *ctxGen) token(tok string) {
 }
 
 // craft returns the crafted payload of a payload- or message-level token class (nil for the other classes).
+// variantOf cycles through the n variants of a token class, so that every variant is used once the class has occurred n times
+var variantCount = map[string]int{}
+
+func variantOf(tok string, n int) int {
+	variantCount[tok]++
+	return (variantCount[tok] - 1) % n
+}
+
 func craft(tok string, rng *rand.Rand) []byte {
 	valid := func() []byte { return compress(validMsgBytes("CRAFT0000001", "Hello from a hostile peer\r\n", 1)) }
 	msg := func(raw []byte) []byte { return compress(raw) }
@@ -507,7 +515,8 @@ func craft(tok string, rng *rand.Rand) []byte {
 	case "MsgFileHuge":
 		return msg(hm("HUGEFILE0001", "Body: 5", "File: 1900000000 a.txt", "", "hello", "abc"))
 	case "MsgFileNoName":
-		return msg(hm("NONAMEFILE01", "Body: 5", "File: 3", "", "hello", "abc"))
+		// a File header that is not "<size> <name>": size only, name only, blank, not a number
+		return msg(hm("NONAMEFILE01", "Body: 5", []string{"File: 3", "File: attachment.bin", "File:  ", "File: abc def.txt", "File: 3\tname.txt"}[variantOf(tok, 5)], "", "hello", "abc"))
 	case "MsgBadDate":
 		return msg(hdrMsg("Mid: BADDATE00001", "Date: yesterday", "From: LA2BBB", "To: LA1AAA", "Subject: x", "Body: 5", "", "hello"))
 	case "MsgNoMid":
@@ -724,6 +733,26 @@ func MainC03(args []string) int {
 	if err != nil {
 		fmt.Fprintln(os.Stderr, "plans:", err)
 		return 2
+	}
+	// focused paths: the bounded plans seldom get a complete handshake, an accepted proposal AND a crafted transfer into one
+	// path, so every payload / message class (and every variant of the classes that have variants) also runs on the
+	// shortest conforming path around it, in both roles
+	payloadClasses := []string{"PayloadTruncFixedSum", "PayloadBadCrc", "PayloadSizeNeg", "PayloadSizeHuge", "PayloadSizeSmall", "PayloadSizeBig",
+		"PayloadGarbage", "PayloadTooShort", "PayloadOverrunMatch", "MsgNoHeader", "MsgBodyNeg", "MsgBodyHuge", "MsgBodyTooBig", "MsgFileNeg",
+		"MsgFileHuge", "MsgFileNoName", "MsgBadDate", "MsgNoMid", "MsgEmpty", "MsgNoBlankLine"}
+	for _, cls := range payloadClasses {
+		reps := 1
+		if cls == "MsgFileNoName" {
+			reps = 5
+		}
+		for r := 0; r < reps; r++ {
+			ts = append(ts, Concretise(Plan{Role: "slave", Path: []string{"Sid", "Prompt", "Prop", "EndBlock", cls, "Frame", "FF", "EOF"}}, len(ts)+1, rec.Seed()))
+			ts = append(ts, Concretise(Plan{Role: "master", Path: []string{"Sid", "FirstCmd", "Prop", "EndBlock", cls, "Frame", "FF", "EOF"}}, len(ts)+1, rec.Seed()))
+		}
+	}
+	for r := 0; r < 8; r++ { // the eight declared negative compressed sizes, each followed by a transfer
+		ts = append(ts, Concretise(Plan{Role: "slave", Path: []string{"Sid", "Prompt", "PropNegCsize", "EndBlock", "Frame", "FF", "EOF"}}, len(ts)+1, rec.Seed()))
+		ts = append(ts, Concretise(Plan{Role: "master", Path: []string{"Sid", "FirstCmd", "PropNegCsize", "EndBlock", "Frame1", "FF", "EOF"}}, len(ts)+1, rec.Seed()))
 	}
 	nplan := len(ts)
 	ts = append(ts, mutantTranscripts(rng, *mutants, len(ts))...)
